@@ -1,6 +1,7 @@
 SPECIFICATION MCSpec
 CONSTANTS WalkEvery = 100
           HeavyEvery = 1
+          DayEdges = TRUE
 INVARIANTS Century CivilAgrees InverseAgrees WeekdayAgrees EndOfCentury UnitsNested TextsNameInstant FormatRoundTrip RequiredExact
 PROPERTIES Monotone
 CHECK_DEADLOCK FALSE
